@@ -131,7 +131,8 @@ func replayDistribute(m map[string]any) int {
 	run := scratchRun(m)
 	u := uni.New(ev.Seed(), 12, nil)
 	fmt.Printf("logs %v\nwitness answers %v\ndistributor answers %v\n", m["origins"], m["witness_answers"], m["distributor_answers"])
-	c15Run(run, u, stringsOf(m["origins"]), stringsOf(m["witness_answers"]), stringsOf(m["distributor_answers"]))
+	warm, _ := m["after_a_valid_round"].(bool)
+	c15RunOpt(run, u, stringsOf(m["origins"]), stringsOf(m["witness_answers"]), stringsOf(m["distributor_answers"]), warm)
 	return run.Finish()
 }
 
